@@ -471,8 +471,17 @@ def _check(spec) -> Outcome:
 
 
 def _table_growth(spec):
-    """Eagerly loaded directory-level tables do not grow with allocation in any format; lazily loaded second-level
-    tables of the *requested* units may share a table with added units (no growth either).  Allow nothing extra."""
+    """Adding allocated units can bring a second-level mapping table into existence where the small image had none
+    (QCOW2 L2 table, VMDK grain table): a request that falls into that table's range then legitimately has to load it.
+    Allow one such table per request for the lazily-tabled formats; directory-level tables never grow with allocation."""
+    f, im = spec["fmt"], spec["image"]
+    n = len(spec["requests"])
+    if f == "qcow2":
+        return n * (1 << im["cluster_bits"])
+    if f in ("kdmv", "kdmv-stream"):
+        return n * (im["gtes"] * 4 + 1024)
+    if f == "sesparse":
+        return n * (im["gt_sectors"] * 512)
     return 0
 
 
